@@ -619,6 +619,18 @@ def _w(arg, binary, tier, nshards, seed):
         return directed_holds(shard, nshards, binary, tier)
     if role == "osfault":
         return os_faults(shard, nshards, binary, tier)
+    if role == "resave":
+        # "a later save still works": a save that answers +OK has written the dataset of that moment,
+        # whatever path the changes since the previous save took (scenario shared with C09)
+        from . import c09
+        res = Result()
+        plans = [[pth] for pth in c09.RESAVE_PATHS] + [None] * (3 if tier == "quick" else 40)
+        for i, plan in enumerate(plans):
+            try:
+                c09.second_save(res, binary, util.rng_for(seed, "C10-resave", shard, i), prop_tag="resave", paths=plan)
+            except (Closed, Timeout, RuntimeError) as e:
+                res.inconclusive.append("resave scenario: %r" % (e,))
+        return res
     if role == "stress":
         return stress(seed * 10 + shard, binary, 15 if tier == "quick" else 120)
     if role == "stress-auto":
@@ -635,13 +647,13 @@ def run(tier):
     binary, bt = server.build("dev")
     rsbin.build()
     args = [("fault", i) for i in range(6)] + [("abort", i) for i in range(3)] + [("hold", i) for i in range(5)] + \
-           [("stress", 0)] + [("stress-auto", 0)] + [("loader", 0)] + [("osfault", i) for i in range(4)]
+           [("stress", 0)] + [("stress-auto", 0)] + [("loader", 0)] + [("osfault", i) for i in range(4)] + [("resave", 0)]
     res = Result()
     for role, count in (("fault", 6), ("abort", 3), ("hold", 5)):
         pass
     # each role is sharded over its own number of workers
     def nsh(role):
-        return {"fault": 6, "abort": 3, "hold": 5, "stress": 1, "stress-auto": 1, "loader": 1, "osfault": 4}[role]
+        return {"fault": 6, "abort": 3, "hold": 5, "stress": 1, "stress-auto": 1, "loader": 1, "osfault": 4, "resave": 1}[role]
     jobs = []
     for role, shard in args:
         jobs.append((role, shard))
